@@ -121,6 +121,12 @@ def rxso3_Ws(x):
     A[condition4] = (a_c4 * sigma_c4 + (1 - b_c4) * theta_c4) / (theta_c4 * c_c4)
     B[condition4] = (C[condition4] - ((b_c4 - 1) * sigma_c4 + a_c4 * theta_c4) / c_c4) * theta2_inv_c4
 
+    # theta and sigma both small: the closed forms of A and B above cancel catastrophically
+    # (relative error ~ eps * theta / (theta^2 + sigma^2)), use their joint Taylor expansion
+    small = (theta2 + sigma2) < torch.finfo(theta.dtype).eps ** 0.4
+    A[small] = 0.5 + sigma[small] / 3 + sigma2[small] / 8 - theta2[small] / 24
+    B[small] = 1.0 / 6 + sigma[small] / 8 + sigma2[small] / 20 - theta2[small] / 120
+
     K = vec2skew(rotation)
     A = A.unsqueeze(-1).unsqueeze(-1)
     B = B.unsqueeze(-1).unsqueeze(-1)
